@@ -97,7 +97,7 @@ theorem queue_step (hL : InvLock s) (hE : InvEv s) (hE' : InvEv s') (h : InvQ s)
     rw [inCS_of_none hl] at h0
     simp [tokPart, firstCS, hev, h0]
   -- C: inside a critical section, nothing shared changes
-  case wTestOk hpc _ _ | cPrune hpc _ | cPruneFail hpc _ | eTestWSome hpc _ | eTestWNone hpc _ | rdPick hpc | xPrune hpc =>
+  case wTestOk hpc _ _ | cPrune hpc _ | cPruneFail hpc _ | eTestWSome hpc _ | eTestWNone hpc _ | rdPick hpc _ | rdPickId _ _ hpc _ _ | rdPickMiss hpc | xPrune hpc =>
     have hl := lock_eq_of_pc hL (t := t) (by simp [hpc])
     rw [inCS_setLoc_self _ hl]
     rw [inCS_of_lock hl] at h0
@@ -109,7 +109,7 @@ theorem queue_step (hL : InvLock s) (hE : InvEv s) (hE' : InvEv s') (h : InvQ s)
     rw [inCS_of_lock hl] at h0
     simpa [firstCS, hpc, hev] using h0
   -- E: releases
-  case wRelA hpc | wRelB hpc | eRel hpc | rdRel hpc | xRel hpc =>
+  case wRelA hpc | wRelB hpc | eRel hpc | rdRel hpc | rdFail hpc | xRel hpc =>
     have hl := lock_eq_of_pc hL (t := t) (by simp [hpc])
     rw [inCS_setLoc_ne _ (by simp), inCS_of_none rfl]
     rw [inCS_of_lock hl] at h0
